@@ -4,4 +4,5 @@ MCTArgs == {DefaultT, None, 0, 1, 2}
 MCEntries == {"expect", "expect_exact", "expect_list", "expect_loop", "waitnoecho"}
 DevExpectLoop == {"expect_loop"}
 DevPerRead == {"PerReadTimeout"}
+DevWake == {"WakeIsTimeout"}
 =============================================================================
